@@ -3,7 +3,7 @@
    is a parameter), every IV and every block sequence, decrypting under ANY schedule what was
    encrypted under ANY other schedule, in place or buffer-to-buffer, returns the original blocks.
    CBC/PCBC/IGE need D(E x) = x; CFB/CFB-8/OFB need nothing (E arbitrary). *)
-From BM Require Import BlockModes Spec BlockModes_proofs Spec_proofs RoundTrip_proofs.
+From BM Require Import BlockModes Spec BlockModes_proofs Spec_proofs RoundTrip_proofs Outcome Cts Cts_mem Cts_spec Cts_cs_proofs Cts_dec_proofs.
 
 Theorem C01_cbc : forall C : cipher, cipher_wf C -> DE_id C -> forall sched1 sched2 iv cs cs2,
   length iv = c_bs C -> all_len (c_bs C) (map rd_in cs) ->
@@ -58,3 +58,13 @@ Theorem C01_block_lengths : forall (S : Type) (single : S -> cell -> S * cell) w
   length (snd (run_sched single w par st sched cs)) = length cs.
 Proof. exact model_lengths. Qed.
 Print Assumptions C01_block_lengths.
+
+(* ciphertext stealing: decrypting what the encryptor produced gives the message back, for all six
+   variants, every length >= one block, in place or buffer-to-buffer on either side (the encryptor's
+   output is the layout of Cts_spec.v by Props/C05.v; here the two are composed), and the length is kept *)
+Theorem C01_cts : forall (C : cipher), cipher_wf C -> DE_id C -> forall v iv m (blocks : list block) (tail : list N) m2,
+  length iv = c_bs C -> msg_mem C m blocks tail -> mwf m2 ->
+  exists c, cts_run C v true iv m = Ok c /\ mlen c = mlen m /\
+            (msrc m2 = m_out c -> exists p, cts_run C v false iv m2 = Ok p /\ m_out p = concat blocks ++ tail).
+Proof. exact cts_roundtrip_composed. Qed.
+Print Assumptions C01_cts.
